@@ -824,4 +824,315 @@ theorem slotStep_mono (fx : VFix) (g : VGraph) (roots : List Nat) (fuel : Nat) (
     (s : Nat) : VMono st (slotStep fx g roots fuel batch st s) :=
   saveAssoc_mono fx roots _ _ (fun b st => saveBatch_mono fx g roots fuel b st) _ _
 
+/-! ## 3. at most once -/
+
+theorem nodup_count {l : List Nat} (h : l.Nodup) (n : Nat) : l.count n ≤ 1 := List.nodup_iff_count.1 h n
+
+/-- every record whose before-hooks fired did so once, and is registered in the visit map or a root -/
+def VOnce (roots : List Nat) (st : VSt) : Prop :=
+  (∀ n, saveCount n st.log ≤ 1) ∧ (∀ n, 1 ≤ saveCount n st.log → n ∈ st.visited.getD [] ∨ n ∈ roots)
+
+/-- what the three pattern flags say about the list a nested Create started with -/
+theorem enter_clean (st : VSt) (roots B values : List Nat) (v' : Option (List Nat))
+    (h : (st.enter roots B values v').clean = true) :
+    st.clean = true ∧ (∀ e, e ∈ values → e ∉ B ∧ e ∉ roots) ∧ values.Nodup := by
+  simp only [VSt.clean, VSt.enter, Bool.and_eq_true, List.all_eq_true, Bool.not_eq_true', List.contains_eq_mem,
+    decide_eq_false_iff_not, Bool.and_eq_false_iff, Bool.not_eq_false', decide_eq_true_eq, nodupB_iff] at h
+  obtain ⟨⟨⟨h1, h2⟩, ⟨h3, h4⟩⟩, ⟨h5, h6⟩⟩ := h
+  refine ⟨by simp [VSt.clean, h1, h3, h5], fun e he => ⟨h2 e he, fun hr => ?_⟩, h6⟩
+  rcases h4 e he with h | h
+  · exact h hr
+  · exact h2 e he h
+
+theorem saveBatch_once (fx : VFix) (g : VGraph) (roots : List Nat) : ∀ (fuel : Nat) (batch : List Nat) (st : VSt),
+    (∀ n, batch.count n ≤ 1) →
+    (∀ n, n ∈ batch → saveCount n st.log = 0 ∧ (n ∈ st.visited.getD [] ∨ n ∈ roots)) →
+    VOnce roots st → (saveBatch fx g roots fuel batch st).clean = true →
+    VOnce roots (saveBatch fx g roots fuel batch st) := by
+  intro fuel
+  induction fuel with
+  | zero => intro batch st _ _ h _; exact h
+  | succ fuel ih =>
+    intro batch st hnd hpre hinv
+    refine saveBatch_succ_inv (fun st' => st'.clean = true → VOnce roots st') fx g roots fuel batch st ?_ ?_ ?_ ?_
+    · intro _
+      constructor
+      · intro n
+        simp only [saveCount_append, saveCount_before]
+        by_cases hn : n ∈ batch
+        · have := (hpre n hn).1; have := hnd n; omega
+        · have : batch.count n = 0 := List.count_eq_zero.2 hn
+          have := hinv.1 n; omega
+      · intro n
+        simp only [saveCount_append, saveCount_before]
+        intro h
+        by_cases hn : n ∈ batch
+        · exact (hpre n hn).2
+        · have : batch.count n = 0 := List.count_eq_zero.2 hn
+          exact hinv.2 n (by omega)
+    · intro st' s _ hP
+      unfold slotStep
+      intro hclean
+      have hmono := slotStep_mono fx g roots fuel batch st' s
+      unfold slotStep at hmono
+      have hI := hP (hmono.clean hclean)
+      revert hclean
+      refine saveAssoc_cases _ _ _ _ _ _ (fun r => r.clean = true → VOnce roots r) ?_ ?_ ?_
+      · intro _ _; exact hI
+      · intro v' _ hv' _ _
+        exact ⟨hI.1, fun n hn => (hI.2 n hn).elim
+          (fun h => Or.inl ((hv' n).2 (Or.inr (visited_sub_base _ _ _ _ h)))) Or.inr⟩
+      · intro v' values _ hv' hsubv _ _ _ _ _ hres
+        have hc := (saveBatch_mono fx g roots fuel _ _).clean hres
+        obtain ⟨_, hall, hnodup⟩ := enter_clean _ _ _ _ _ hc
+        refine ih _ _ (nodup_count hnodup) ?_ ?_ hres
+        · intro n hn
+          rw [enter_log, enter_visited]
+          refine ⟨?_, Or.inl ((hv' n).2 (Or.inl (hsubv n hn)))⟩
+          have h1 := hI.2 n
+          have h2 := hall n hn
+          cases hc : saveCount n st'.log with
+          | zero => rfl
+          | succ k =>
+            rcases h1 (by omega) with h | h
+            · exact absurd (visited_sub_base _ _ _ _ h) h2.1
+            · exact absurd h h2.2
+        · exact ⟨hI.1, fun n hn => (hI.2 n hn).elim
+            (fun h => Or.inl ((hv' n).2 (Or.inr (visited_sub_base _ _ _ _ h)))) Or.inr⟩
+    · intro st' hP hclean
+      have := hP hclean
+      refine ⟨fun n => ?_, fun n => ?_⟩
+      · simp only [saveCount_append, saveCount_stmt]; exact this.1 n
+      · simp only [saveCount_append, saveCount_stmt]; exact this.2 n
+    · intro st' hP hclean
+      have := hP hclean
+      refine ⟨fun n => ?_, fun n => ?_⟩
+      · simp only [saveCount_append, saveCount_after]; exact this.1 n
+      · simp only [saveCount_append, saveCount_after]; exact this.2 n
+
+theorem visit_at_most_once (fx : VFix) (g : VGraph) (roots existing : List Nat) :
+    roots.Nodup → (g.run fx roots existing).clean = true → ∀ n, saveCount n (g.run fx roots existing).log ≤ 1 := by
+  intro hnd hclean
+  unfold VGraph.run at hclean ⊢
+  refine (saveBatch_once fx g roots (g.size + 1) roots { keyed := existing } (List.nodup_iff_count.1 hnd)
+    ?_ ?_ hclean).1
+  · intro n hn; exact ⟨by simp [saveCount], Or.inr hn⟩
+  · exact ⟨fun n => by simp [saveCount], fun n h => by simp [saveCount] at h⟩
+
+/-! ## 5. completeness -/
+
+theorem vfoldl_hit {α β : Type} (R : β → β → Prop) (refl : ∀ b, R b b)
+    (trans : ∀ a b c, R a b → R b c → R a c) (f : β → α → β) (hR : ∀ b a, R b (f b a))
+    (A : β → Prop) (hA : ∀ a b, A a → R a b → A b) (s : α) (hit : ∀ b, A (f b s))
+    (l : List α) (hs : s ∈ l) (b : β) : A (l.foldl f b) := by
+  induction l generalizing b with
+  | nil => simp at hs
+  | cons a l ih =>
+    simp only [List.foldl_cons]
+    rcases List.mem_cons.1 hs with h | h
+    · subst h
+      exact hA _ _ (hit b) (vfoldl_rel R refl trans f l hR _)
+    · exact ih h _
+
+theorem saveAssoc_registers (fx : VFix) (roots own : List Nat) (rec : List Nat → VSt → VSt)
+    (hrec : ∀ b st, VMono st (rec b st)) (elems : List Nat) (st : VSt) (t : Nat) (ht : t ∈ elems) :
+    t ∈ (saveAssoc fx roots own rec elems st).visited.getD [] := by
+  refine saveAssoc_cases _ _ _ _ _ _ (fun r => t ∈ r.visited.getD []) ?_ ?_ ?_
+  · intro h; subst h; simp at ht
+  · intro v' _ hv' _; exact (hv' t).2 (Or.inl ht)
+  · intro v' values _ hv' _ _ _ _ _ _
+    exact (hrec _ _).2.2.1 t (by rw [enter_visited]; exact (hv' t).2 (Or.inl ht))
+
+theorem slotStep_registers (fx : VFix) (g : VGraph) (roots : List Nat) (fuel : Nat) (batch : List Nat) (st : VSt)
+    (s m t : Nat) (hm : m ∈ batch) (ht : t ∈ g.targets m s) :
+    t ∈ (slotStep fx g roots fuel batch st s).visited.getD [] :=
+  saveAssoc_registers fx roots _ _ (fun b st => saveBatch_mono fx g roots fuel b st) _ _ t
+    ((group_mem g batch s st.keyed t).2 ⟨m, hm, ht⟩)
+
+theorem slotLoop_mono (fx : VFix) (g : VGraph) (roots : List Nat) (fuel : Nat) (batch : List Nat) (l : List Nat)
+    (st : VSt) : VMono st (l.foldl (slotStep fx g roots fuel batch) st) :=
+  vfoldl_rel VMono VMono.refl (fun _ _ _ h1 h2 => VMono.trans h1 h2) _ l
+    (fun b a => slotStep_mono fx g roots fuel batch b a) st
+
+theorem slotLoop_registers (fx : VFix) (g : VGraph) (roots : List Nat) (fuel : Nat) (batch : List Nat)
+    (l : List Nat) (st : VSt) (s m t : Nat) (hs : s ∈ l) (hm : m ∈ batch) (ht : t ∈ g.targets m s) :
+    t ∈ (l.foldl (slotStep fx g roots fuel batch) st).visited.getD [] :=
+  vfoldl_hit VMono VMono.refl (fun _ _ _ h1 h2 => VMono.trans h1 h2) _
+    (fun b a => slotStep_mono fx g roots fuel batch b a)
+    (fun b => t ∈ b.visited.getD []) (fun _ _ ha hab => hab.2.2.1 t ha) s
+    (fun b => slotStep_registers fx g roots fuel batch b s m t hm ht) l hs st
+
+/-- after the pipeline ran over `batch`, every record held by a relation of a member of `batch` is registered -/
+theorem saveBatch_succ_closure (fx : VFix) (g : VGraph) (roots : List Nat) (fuel : Nat) (batch : List Nat)
+    (st : VSt) (m s t : Nat) (hm : m ∈ batch) (hs : s < g.nslots) (ht : t ∈ g.targets m s) :
+    t ∈ (saveBatch fx g roots (fuel+1) batch st).visited.getD [] := by
+  rw [saveBatch_succ]
+  simp only []
+  by_cases hsb : s < g.nbefore
+  · apply (slotLoop_mono fx g roots fuel batch _ _).2.2.1
+    exact slotLoop_registers fx g roots fuel batch _ _ s m t (List.mem_range.2 hsb) hm ht
+  · apply slotLoop_registers fx g roots fuel batch _ _ s m t _ hm ht
+    exact List.mem_map.2 ⟨s - g.nbefore, List.mem_range.2 (by omega), by omega⟩
+
+/-- record `x` was saved and everything its relations hold is registered -/
+def VDone (g : VGraph) (r : VSt) (x : Nat) : Prop :=
+  1 ≤ saveCount x r.log ∧ ∀ s, s < g.nslots → ∀ t, t ∈ g.targets x s → t ∈ r.visited.getD []
+
+theorem VDone.mono {g : VGraph} {a b : VSt} {x : Nat} (h : VMono a b) : VDone g a x → VDone g b x :=
+  fun hd => ⟨Nat.le_trans hd.1 (h.2.2.2.1 x), fun s hs t ht => h.2.2.1 t (hd.2 s hs t ht)⟩
+
+/-- the members of the batch are done at the end; every record that got registered during the run (with the F28
+    repair that includes the batch itself, registered when the map is created) is done at the end -/
+theorem saveBatch_complete (fx : VFix) (g : VGraph) (roots : List Nat) : ∀ (fuel : Nat) (batch : List Nat) (st : VSt),
+    (saveBatch fx g roots fuel batch st).ok = true →
+    (∀ m, m ∈ batch → VDone g (saveBatch fx g roots fuel batch st) m) ∧
+    (∀ x, x ∈ (saveBatch fx g roots fuel batch st).visited.getD [] → x ∉ st.visited.getD [] →
+      VDone g (saveBatch fx g roots fuel batch st) x) := by
+  intro fuel
+  induction fuel with
+  | zero => intro batch st h; simp [saveBatch_zero] at h
+  | succ fuel ih =>
+    intro batch st hok
+    have hmove : ∀ a b : VSt, VMono a b → (∀ x, x ∈ b.visited.getD [] → x ∈ a.visited.getD []) →
+        ((∀ m, m ∈ batch → 1 ≤ saveCount m a.log) ∧
+          (∀ x, x ∈ a.visited.getD [] → x ∉ st.visited.getD [] → x ∈ batch ∨ VDone g a x)) →
+        ((∀ m, m ∈ batch → 1 ≤ saveCount m b.log) ∧
+          (∀ x, x ∈ b.visited.getD [] → x ∉ st.visited.getD [] → x ∈ batch ∨ VDone g b x)) := by
+      intro a b hab hV hbody
+      exact ⟨fun m hm => Nat.le_trans (hbody.1 m hm) (hab.2.2.2.1 m),
+        fun x hx hx' => (hbody.2 x (hV x hx) hx').elim Or.inl (fun h => Or.inr (VDone.mono hab h))⟩
+    have main := saveBatch_succ_inv
+      (fun st' => st'.ok = true → (∀ m, m ∈ batch → 1 ≤ saveCount m st'.log) ∧
+        (∀ x, x ∈ st'.visited.getD [] → x ∉ st.visited.getD [] → x ∈ batch ∨ VDone g st' x))
+      fx g roots fuel batch st ?_ ?_ ?_ ?_ hok
+    · have hbatch : ∀ m, m ∈ batch → VDone g (saveBatch fx g roots (fuel+1) batch st) m :=
+        fun m hm => ⟨main.1 m hm, fun s hs t ht => saveBatch_succ_closure fx g roots fuel batch st m s t hm hs ht⟩
+      exact ⟨hbatch, fun x hx hx' => (main.2 x hx hx').elim (hbatch x) id⟩
+    · intro _
+      refine ⟨fun m hm => ?_, fun x hx hx' => absurd hx hx'⟩
+      simp only [saveCount_append, saveCount_before]
+      have : 1 ≤ batch.count m := List.one_le_count_iff.2 hm
+      omega
+    · intro st' s _ hP
+      have hmono := slotStep_mono fx g roots fuel batch st' s
+      unfold slotStep at hmono ⊢
+      intro hok'
+      have hP' := hP (hmono.1 hok')
+      -- a record of the base is registered already, or a member of the batch (F28: the new map starts with them)
+      have hbase : ∀ x, x ∈ visitBase fx.root batch st'.visited → x ∈ st'.visited.getD [] ∨ x ∈ batch := by
+        intro x hx
+        rcases (mem_visitBase _ _ _ _).1 hx with h | ⟨_, _, h⟩
+        · exact Or.inl h
+        · exact Or.inr h
+      revert hok'
+      refine saveAssoc_cases _ _ _ _ _ _
+        (fun r => r.ok = true → (∀ m, m ∈ batch → 1 ≤ saveCount m r.log) ∧
+          (∀ x, x ∈ r.visited.getD [] → x ∉ st.visited.getD [] → x ∈ batch ∨ VDone g r x)) ?_ ?_ ?_
+      · intro _ _; exact hP'
+      · intro v' hsome hv' hall _
+        refine ⟨hP'.1, fun x hx hx' => ?_⟩
+        have hxb : x ∈ visitBase fx.root batch st'.visited := ((hv' x).1 hx).elim (hall x) id
+        have M : VMono st' { st' with visited := v' } :=
+          ⟨id, ⟨id, id, id⟩, fun y hy => (hv' y).2 (Or.inr (visited_sub_base _ _ _ _ hy)), fun _ => Nat.le_refl _,
+            fun _ => hsome⟩
+        rcases hbase x hxb with h | h
+        · exact (hP'.2 x h hx').elim Or.inl (fun h => Or.inr (VDone.mono M h))
+        · exact Or.inl h
+      · intro v' values hs hv' hsubv hcover _ _ _ _ hres
+        have hI := ih _ _ hres
+        have M := VMono.trans
+          (VMono.enter st' roots (visitBase fx.root batch st'.visited) values v'
+            (fun x hx => (hv' x).2 (Or.inr (visited_sub_base _ _ _ _ hx))) hs)
+          (saveBatch_mono fx g roots fuel values _)
+        refine ⟨fun m hm => Nat.le_trans (hP'.1 m hm) (M.2.2.2.1 m), fun x hx hx' => ?_⟩
+        by_cases hx'' : x ∈ v'.getD []
+        · have hold : x ∈ visitBase fx.root batch st'.visited → x ∈ batch ∨ VDone g (saveBatch fx g roots fuel values
+              (st'.enter roots (visitBase fx.root batch st'.visited) values v')) x := by
+            intro hb
+            rcases hbase x hb with h | h
+            · exact (hP'.2 x h hx').elim Or.inl (fun h => Or.inr (VDone.mono M h))
+            · exact Or.inl h
+          rcases (hv' x).1 hx'' with h | h
+          · rcases hcover x h with h' | h'
+            · exact Or.inr (hI.1 x h')
+            · exact hold h'
+          · exact hold h
+        · exact Or.inr (hI.2 x hx (by rw [enter_visited]; exact hx''))
+    · intro st' hP hok'
+      exact hmove st' _ (VMono.log st' _ _) (fun _ h => h) (hP hok')
+    · intro st' hP hok'
+      exact hmove st' _ (VMono.log st' _ _) (fun _ h => h) (hP hok')
+
+theorem visit_complete (fx : VFix) (g : VGraph) (roots existing : List Nat) (n : Nat) :
+    VReach g roots n → 1 ≤ saveCount n (g.run fx roots existing).log := by
+  intro hreach
+  have hok := visit_terminates fx g roots existing
+  unfold VGraph.run at hok ⊢
+  have hc := saveBatch_complete fx g roots (g.size + 1) roots { keyed := existing } hok
+  have hdone : ∀ x, x ∈ roots ∨ x ∈ (saveBatch fx g roots (g.size + 1) roots { keyed := existing }).visited.getD [] →
+      VDone g (saveBatch fx g roots (g.size + 1) roots { keyed := existing }) x := by
+    intro x hx
+    rcases hx with h | h
+    · exact hc.1 x h
+    · exact hc.2 x h (by simp)
+  have : n ∈ roots ∨ n ∈ (saveBatch fx g roots (g.size + 1) roots { keyed := existing }).visited.getD [] := by
+    induction hreach with
+    | root h => exact Or.inl h
+    | step _ hs ht ihm => exact Or.inr ((hdone _ ihm).2 _ hs _ ht)
+  exact (hdone n this).1
+
+/-! ## 6. soundness -/
+
+theorem saveBatch_sound (fx : VFix) (g : VGraph) (roots : List Nat) (hslots : g.nbefore ≤ g.nslots) :
+    ∀ (fuel : Nat) (batch : List Nat) (st : VSt),
+    (∀ m, m ∈ batch → VReach g roots m) → (∀ n, 1 ≤ saveCount n st.log → VReach g roots n) →
+    ∀ n, 1 ≤ saveCount n (saveBatch fx g roots fuel batch st).log → VReach g roots n := by
+  intro fuel
+  induction fuel with
+  | zero => intro batch st _ h; exact h
+  | succ fuel ih =>
+    intro batch st hb hst
+    refine saveBatch_succ_inv (fun st' => ∀ n, 1 ≤ saveCount n st'.log → VReach g roots n)
+      fx g roots fuel batch st ?_ ?_ ?_ ?_
+    · intro n
+      simp only [saveCount_append, saveCount_before]
+      intro h
+      by_cases hn : n ∈ batch
+      · exact hb n hn
+      · have : batch.count n = 0 := List.count_eq_zero.2 hn
+        exact hst n (by omega)
+    · intro st' s hs hP
+      have hs' : s < g.nslots := by omega
+      unfold slotStep
+      refine saveAssoc_cases _ _ _ _ _ _ (fun r => ∀ n, 1 ≤ saveCount n r.log → VReach g roots n) ?_ ?_ ?_
+      · intro _; exact hP
+      · intro _ _ _ _; exact hP
+      · intro v' values _ _ hsubv _ _ _ _ _
+        refine ih _ _ ?_ hP
+        intro e he
+        obtain ⟨m, hm, hme⟩ := (group_mem g batch s st'.keyed e).1 (hsubv e he)
+        exact VReach.step (hb m hm) hs' hme
+    · intro st' hP n
+      simp only [saveCount_append, saveCount_stmt]; exact hP n
+    · intro st' hP n
+      simp only [saveCount_append, saveCount_after]; exact hP n
+
+theorem visit_sound (fx : VFix) (g : VGraph) (roots existing : List Nat) (n : Nat) (hslots : g.nbefore ≤ g.nslots) :
+    1 ≤ saveCount n (g.run fx roots existing).log → VReach g roots n := by
+  unfold VGraph.run
+  exact saveBatch_sound fx g roots hslots (g.size + 1) roots { keyed := existing }
+    (fun m hm => VReach.root hm) (fun n h => by simp [saveCount] at h) n
+
+/-- without `nbefore ≤ nslots` soundness fails: the belongs-to loop runs slots `≥ nslots` too -/
+def visitG5 : VGraph := { size := 2, nbefore := 1, nslots := 0, adj := [[[1]], []], dedupe := [] }
+
+theorem visit_sound_needs_slots :
+    saveCount 1 (visitG5.run {} [0] []).log = 1 ∧ ¬ VReach visitG5 [0] 1 := by
+  refine ⟨by decide, ?_⟩
+  intro h
+  generalize hx : (1 : Nat) = x at h
+  cases h with
+  | root h => subst hx; simp at h
+  | step _ hs _ => exact absurd hs (Nat.not_lt_zero _)
+
 end Gorm
